@@ -147,7 +147,8 @@ theorem parse_entry_eq (db : CodecDB) (self : Self) (be : Bool) (h : self._endia
     Parser._parse_entry db self i a b = liftSt self (parseEntry db be self._view (stOf self) i a b) := by
   simp only [Parser._parse_entry]
   mo_unfold_helpers
-  simp only [parseEntry_staged, readString, read2, read_ints_eq db self be h, Py.viewIndex, Py.tryExcept, Py.isIndexError]
+  simp only [parseEntry_staged, readString, read2, read_ints_eq db self be h, Py.viewIndex, Py.tryExcept, Py.isIndexError,
+    Bool.not_eq_true', decide_eq_false_iff_not, decide_eq_true_eq, Nat.not_le, Nat.not_lt, gt_iff_lt, ge_iff_le]
   cases h1 : readInts be self._view a 2 with
   | error e => rfl
   | ok ws =>
